@@ -235,3 +235,38 @@ JOBS['C15'] = {
     ],
 }
 ASSUMPTIONS['C15'] = ['the monitors (bounds, use-after-free, double free, uninitialised reads incl. bit-fields, division by zero, llvm.unreachable/trap, library assertions, uncaught exceptions, step budget, leak at exit) run on every path of every harness of every property; this check adds the object-lifecycle histories', 'allocation failure and threads are outside the claim; signed-overflow UB already folded by -O1 is not visible in the IR']
+
+# ----------------------------------------------------------------------------------------------- C10
+def nudge(name, extra=(), **kw):
+    return Job(name, 'C10_nudge.cpp', list(extra), ['libavoid'], **kw)
+B_NUDGE = 'orthogonal Router, wall (40..46,-200)-(60..66,40) (symbolic x shift), connector 1 from (0, 0..8) to (100, 0..8), connector 2 from (6, 12..20) to (94, 12..20): both must pass under the wall and share three corridors; '
+JOBS['C10'] = {
+    'quick': [nudge('wall-2conns-d4', ['-DNUDGE=4'], bounds=B_NUDGE + 'idealNudgingDistance 4')],
+    'thorough': [nudge('wall-2conns-d10', ['-DNUDGE=10'], bounds=B_NUDGE + 'idealNudgingDistance 10'),
+                 nudge('wall-2conns-d4-shapes', ['-DNUDGE=4', '-DOPT_SHAPES'], bounds=B_NUDGE + 'distance 4, nudgeOrthogonalSegmentsConnectedToShapes')],
+}
+ASSUMPTIONS['C10'] = ['two connectors, one shape; the shared corridors lie in unbounded free space (channel wide enough); endpoints are free points (no pins)']
+
+# ----------------------------------------------------------------------------------------------- C12
+def hyp(name, extra=(), **kw):
+    return Job(name, 'C12_hyperedge.cpp', list(extra), ['libavoid'], **kw)
+B_HYP = 'orthogonal Router, three 20x20 shapes (0,40),(120,0),(120,80) each with an exclusive pin facing the middle, one free junction at any integer point of [40,100]x[20,80], three connectors junction->pin; '
+JOBS['C12'] = {
+    'quick': [hyp('improve-moving', ['-DIMPROVE=1'], bounds=B_HYP + 'improveHyperedgeRoutesMovingJunctions')],
+    'thorough': [hyp('improve-addremove', ['-DIMPROVE=1', '-DADDREMOVE'], bounds=B_HYP + 'improveHyperedgeRoutesMovingAddingAndDeletingJunctions'),
+                 hyp('improve-moving-then-move', ['-DIMPROVE=1', '-DMOVE'], bounds=B_HYP + 'then one shape is moved by (dx,dy) in [-10,10]^2 and a second transaction runs'),
+                 hyp('reroute-registered', ['-DIMPROVE=1', '-DREROUTE'], bounds=B_HYP + 'hyperedge registered (by junction) with the HyperedgeRerouter for full rerouting')],
+}
+ASSUMPTIONS['C12'] = ['3 terminals, no obstacles between them, one hyperedge; larger hyperedges are outside the bound']
+
+# ----------------------------------------------------------------------------------------------- C13
+TOPO_LIBS = ['libvpsc', 'libcola', 'libavoid', 'libtopology']
+def topo(name, conf, axis, mover=2, **kw):
+    return Job(name, 'C13_topology.cpp', ['-DCONF=%d' % conf, '-DAXIS=%d' % axis, '-DMOVER=%d' % mover], TOPO_LIBS, exclude=('libcola/output_svg.cpp',), libdefs=['-DNDEBUG'], relax_int=False, **kw)
+B_TOPO = 'three rectangles, one straight edge between the centres of nodes 0 and 1; the third node gets ANY integer desired position in [-80,200] in the chosen axis; TopologyConstraints::solve() iterated to completion; '
+JOBS['C13'] = {
+    'quick': [topo('bend-conf1-x', 1, 0, bounds=B_TOPO + 'configuration of libtopology/tests/simple_bend test3, horizontal')],
+    'thorough': [topo('bend-conf2-x', 2, 0, bounds=B_TOPO + 'simple_bend test2, horizontal'), topo('bend-conf3-y', 3, 1, bounds=B_TOPO + 'mover below a horizontal edge, vertical axis'),
+                 topo('bend-conf1-y', 1, 1, bounds=B_TOPO + 'test3, vertical')],
+}
+ASSUMPTIONS['C13'] = ['the libraries are compiled with -DNDEBUG for this check (IR and native replay alike): libtopology\'s debug assertions re-check the geometry with divisions by values that are only known up to rounding, which the executor cannot bound; the harness asserts the property itself instead', 'force computation (compute_forces: sqrt of symbolic lengths) is outside the executor arithmetic: desired positions are supplied symbolically instead, which covers every move a force could request in one axis; 3 nodes, 1 edge']
